@@ -134,6 +134,19 @@ def invariance_run(eng, NM, Q, N, deg, fail):
         fg = lambda x_hat, g: f(x_hat)
         same(S.seminorm_h_1_2(fg, a, b, gamma), flat, 'H^{1/2} (order %d): curve-aware variant differs from the flat one on '
              'a straight segment with direction (%d,%d)' % (N, dx, dy))
+    # the denominator is the Euclidean distance of the CURVE POINTS, not of the parameters: on a straight segment run
+    # through with speed kappa (symbolic) the value is flat / kappa^2
+    kappa = eng.real('kappa')
+    eng.assume(kappa > 0)
+    for (dx, dy) in ((Fraction(3, 5), Fraction(4, 5)), (Fraction(0), Fraction(-1))):
+        def gamma_k(x_hat, dx=dx, dy=dy):
+            x_hat = np.atleast_1d(x_hat)
+            return np.array([[px + kappa * dx * (v - a) for v in x_hat], [py + kappa * dy * (v - a) for v in x_hat]],
+                            dtype=object)
+        fg = lambda x_hat, g: f(x_hat)
+        same(S.seminorm_h_1_2(fg, a, b, gamma_k) * kappa * kappa, flat, 'H^{1/2} (order %d): on a straight segment '
+             'traversed with speed kappa the curve-aware value is not flat / kappa^2 (the distance used is not the '
+             'Euclidean distance of the curve points)' % N)
     # two collinear pieces of different length = the union interval (polynomial within the exactness range).
     # Concrete break points (the quotient (f(x)-f(y))^2/|x-y|^2 is only reduced for numeric denominators),
     # symbolic coefficients; holds up to the exactness of the tabulated doubles.
@@ -325,6 +338,9 @@ def replay(rp):
         for (dx, dy) in ((1, 0), (0, 1), (-1, 0), (0, -1)):
             gamma = lambda xh: np.vstack([0.2 + dx * (np.atleast_1d(xh) - a), -0.4 + dy * (np.atleast_1d(xh) - a)])
             bad |= abs(S.seminorm_h_1_2(lambda xh, g: f(xh), a, a + h, gamma) - flat) > 1e-9 * abs(flat)
+        for (dx, dy, kap) in ((0.6, 0.8, 2.0), (0.0, -1.0, 0.25)):
+            gamma = lambda xh: np.vstack([0.2 + kap * dx * (np.atleast_1d(xh) - a), -0.4 + kap * dy * (np.atleast_1d(xh) - a)])
+            bad |= abs(S.seminorm_h_1_2(lambda xh, g: f(xh), a, a + h, gamma) * kap * kap - flat) > 1e-9 * abs(flat)
         if (N - 1) // 2 >= 1:
             low = cs[:min(deg, (N - 1) // 2) + 1]
             fl = lambda x, g=None: sum(c * x**k for k, c in enumerate(low))
@@ -343,7 +359,7 @@ def replay(rp):
 
 def run(out):
     quick = out.tier == 'quick'
-    inv = [(1, 1), (3, 2)] if quick else [(1, 1), (3, 2), (5, 2), (7, 3)]
+    inv = [(1, 1), (3, 2), (5, 2)] if quick else [(1, 1), (3, 2), (5, 2), (7, 3)]
     for c, r in zip(inv, report.pmap('checks.c14', 'invariance_worker', inv)):
         report.merge_worker(out, r, part='I invariances (symbolic interval)')
     orders = list(range(1, 24, 2)) + [(7, 3), (3, 7)] + ([] if quick else [(11, 5), (5, 11), (23, 1), (1, 21)])
